@@ -5976,6 +5976,14 @@ class CodegenCtx:
             result.add(f"return {self.program_name.upper()}_OK;")
         return result.value()
 
+    def _emitted_transitions_pointing_to(self, target_state: DFState):
+        """
+        All transitions into target_state from any state that is emitted (every state in self.dfa.states gets a case,
+        reachable or not, so every one of them may contain a goto to the target's labels)
+        """
+
+        return [t for state in self.dfa.states for t in state.all_transitions() if t.target == target_state]
+
     def _needs_end_check(self):
         if ProgramData.do(ProgramFlag.ZERO_LEN_INPUT_SUPPORT):
             return True
@@ -6006,11 +6014,11 @@ class CodegenCtx:
                 # Emit the case label
                 contents.add(f"case {idx}:")
                 # Emit goto target for fallthroughs if anything falls here (these are separate to make it slightly easier to read)
-                if any(x.is_fallthrough and self._transition_will_directly_jump(x, excl_fall=True) for x in self.dfa.transitions_pointing_to(state)):
+                if any(x.is_fallthrough and self._transition_will_directly_jump(x, excl_fall=True) for x in self._emitted_transitions_pointing_to(state)):
                     contents.add(f"fall_{idx}:")
                 # If any transition can directly jump into this case, emit a label for it to do so. We don't really _need_ these checks
                 # but gcc complains about unused labels in -Wall.
-                if any(self._transition_will_directly_jump(x) for x in self.dfa.transitions_pointing_to(state) if x.on_values != {DFTransition.End}):
+                if any(self._transition_will_directly_jump(x) for x in self._emitted_transitions_pointing_to(state) if x.on_values != {DFTransition.End}):
                     contents.add(f"jpto_{idx}:")
                 with contents as state_body:
                     # Is this a normal state
@@ -6059,7 +6067,7 @@ class CodegenCtx:
                 # Emit the case label
                 contents.add(f"case {idx}:")
                 # Emit goto target for fallthroughs if anything falls here (these are separate to make it slightly easier to read)
-                if any(x.is_fallthrough for x in self.dfa.transitions_pointing_to(state)):
+                if any(x.is_fallthrough for x in self._emitted_transitions_pointing_to(state)):
                     contents.add(f"fall_{idx}:")
                 with contents as state_body:
                     # Is this a normal state
